@@ -400,6 +400,230 @@ def mut_is_benign(ln, io):
     return len(io.get("ids", [])) <= 1
 
 
+
+# ---------------------------------------------------------------------------------------------
+# service-level oracles (read on store dumps, responses and client post-states)
+
+def _stores(case):
+    """yield (idx, line, store) for every store dump of the case"""
+    for idx, (ln, mo) in enumerate(case):
+        if ln.get("k") == "store" and isinstance(ln.get("obs", {}).get("store"), dict):
+            yield idx, ln, ln["obs"]["store"]
+
+
+def check_loginv(st):
+    ops_by = {}
+    for o in st["operations"]:
+        ops_by.setdefault(o["duid"], []).append(o)
+    duids = [d["duid"] for d in st["datatypes"]]
+    if len(duids) != len(set(duids)):
+        return "duplicate datatype id"
+    for d in st["datatypes"]:
+        ops = sorted(ops_by.get(d["duid"], []), key=lambda o: o["sseq"])
+        seqs = [o["sseq"] for o in ops]
+        if seqs != list(range(1, d["end"] + 1)):
+            return "log of %s is not 1..End: sseqs=%s end=%s" % (d["key"], seqs[:40], d["end"])
+        for o in ops:
+            if o["_id"] != "%s:%d" % (d["duid"], o["sseq"]):
+                return "operation document id %s does not match duid:sseq" % o["_id"]
+            if o["colNum"] != d["colNum"]:
+                return "operation stored under another collection number"
+        for kind in ("rw", "ro"):
+            for cuid, sub in d[kind].items():
+                s_, c_ = sub["cp"]
+                if s_ > d["end"]:
+                    return "checkpoint of %s exceeds the end of the log (%d > %d)" % (cuid, s_, d["end"])
+                if kind == "rw":
+                    own = [o["op"]["id"][3] for o in ops if o["op"]["id"][2] == cuid]
+                    if own != list(range(1, len(own) + 1)):
+                        return "operations of client %s are not stored in the order issued: %s" % (cuid, own[:40])
+                    if c_ > len(own):
+                        return "checkpoint of %s acknowledges an operation that is not stored (cseq %d, stored %d)" % (cuid, c_, len(own))
+    for duid in ops_by:
+        if duid not in duids:
+            return "operations stored for an unknown datatype id %s" % duid
+    return None
+
+
+def loginv(case):
+    """C06 after every request: gapless 1..End, ids duid:sseq, per-client order, checkpoints bounded;
+    and every operation a client was acknowledged for is stored exactly once."""
+    mutated = any(ln.get("mut") for ln, _ in case)
+    for idx, ln, st in _stores(case):
+        m = check_loginv(st)
+        if m and not (mutated and ("order issued" in m or "acknowledges" in m)):
+            # per-client clauses presuppose requests whose operation ids carry the sender's id
+            return [dict(step=idx, what="log-invariant", detail=dict(cmd=strip(ln), msg=m))]
+    return []
+
+
+def _final_posts(case):
+    """last known post-state per service-level datatype instance"""
+    last = {}
+    for idx, (ln, mo) in enumerate(case):
+        io = ln.get("obs", {})
+        if ln.get("k") == "newdt":
+            last[ln["r"]] = dict(io, key=ln["key"], c=ln["c"], dt=ln["dt"])
+        elif ln.get("k") == "call" and "view" in io and ln.get("r") in last:
+            last[ln["r"]].update({k: io[k] for k in ("view", "size", "dstate", "duid", "cp", "npending") if k in io})
+        for p in io.get("posts", []) or []:
+            if p.get("r") in last:
+                last[p["r"]].update({k: p[k] for k in ("view", "size", "dstate", "duid", "cp", "npending") if k in p})
+    return last
+
+
+def sconverge(case):
+    """C05/C07: at the quiescent end of the case all clients subscribed to a datatype hold the same
+    state, equal to the state the server rebuilt from its log (user document at version End), every
+    client's checkpoint equals the end of the log and nothing is left to push."""
+    if not case or case[-1][0].get("k") != "send":
+        return []
+    if any(ln.get("mut") for ln, _ in case):
+        return []   # mutated requests may legitimately leave a client behind (refused pushes)
+    stores = list(_stores(case))
+    if not stores:
+        return []
+    st = stores[-1][2]
+    col_of = {}
+    for ln, _ in case:
+        if ln.get("k") == "client":
+            col_of[ln["c"]] = ln["col"]
+    bykey = {(d["colNum"], d["key"]): d for d in st["datatypes"]}
+    colnum = {c["name"]: c["num"] for c in st["collections"]}
+    user = {(u["col"], u["key"]): u for u in st["userDocs"]}
+    groups = {}
+    for r, p in _final_posts(case).items():
+        if p.get("dstate") != "SUBSCRIBED":
+            continue
+        col = col_of.get(p["c"])
+        groups.setdefault((col, p["key"], p.get("duid")), []).append((r, p))
+    for (col, key, duid), members in groups.items():
+        d = bykey.get((colnum.get(col), key))
+        if d is None or d["duid"] != duid:
+            return [dict(step=len(case) - 1, what="subscribed-to-unknown-datatype", detail=dict(col=col, key=key, duid=duid))]
+        r0, p0 = members[0]
+        for r, p in members:
+            if first_diff(p["view"], p0["view"]) or p.get("size") != p0.get("size"):
+                return [dict(step=len(case) - 1, what="clients-diverged", detail=dict(key=key, a=dict(r=r0, view=p0["view"]), b=dict(r=r, view=p["view"])))]
+            if p.get("npending"):
+                return [dict(step=len(case) - 1, what="operations-left-to-push", detail=dict(key=key, r=r, npending=p["npending"]))]
+            if p.get("cp") and p["cp"][0] != d["end"]:
+                return [dict(step=len(case) - 1, what="client-behind-log", detail=dict(key=key, r=r, cp=p["cp"], end=d["end"]))]
+        u = user.get((col, key))
+        if u is not None and u.get("ver") == d["end"]:
+            uv = {({"counter": "Counter", "list": "List"}.get(k, k)): v for k, v in (u["value"] or {}).items()} if isinstance(u["value"], dict) else u["value"]
+            if first_diff(uv, p0["view"]):
+                return [dict(step=len(case) - 1, what="server-copy-differs", detail=dict(key=key, server=uv, client=p0["view"]))]
+    return []
+
+
+def _adjacent(case):
+    """(idx, sync line, store before, store after) for every sync that is directly framed by two store dumps"""
+    for idx, (ln, mo) in enumerate(case):
+        if ln.get("k") != "sync":
+            continue
+        j = idx - 1
+        while j >= 0 and case[j][0].get("k") == "intent":
+            j -= 1
+        if j < 0 or case[j][0].get("k") != "store" or idx + 1 >= len(case) or case[idx + 1][0].get("k") != "store":
+            continue
+        a, b = case[j][0].get("obs", {}).get("store"), case[idx + 1][0].get("obs", {}).get("store")
+        if isinstance(a, dict) and isinstance(b, dict):
+            yield idx, ln, a, b
+
+
+def refused_noop(case):
+    """C16: a refused request (RPC error, or every response pack an error pack) leaves the stored data
+    unchanged; no request hangs or crashes the server."""
+    for idx, (ln, mo) in enumerate(case):
+        io = ln.get("obs", {})
+        if io.get("hang") or io.get("crash"):
+            return [dict(step=idx, what="no-answer" if io.get("hang") else "server-crash", detail=dict(cmd=strip(ln), msg=io.get("panicMsg", "")[-500:]))]
+    for idx, ln, before, after in _adjacent(case):
+        io = ln.get("obs", {})
+        resp = io.get("resp")
+        refused = io.get("rpc") not in (0, None) or (isinstance(resp, list) and resp and all((p or {}).get("opt", 0) & 32 for p in resp))
+        if refused and ln.get("fault") not in ("dup", "dup1"):
+            d = first_diff(_canon_store(before), _canon_store(after))
+            if d:
+                return [dict(step=idx, what="refused-request-changed-store", detail=dict(cmd=strip(ln), where=d))]
+    return []
+
+
+def isolation(case):
+    """C17: a request by a client of collection A leaves every document of the other collections
+    unchanged; a foreign request is refused."""
+    reg = {}
+    for ln, _ in case:
+        if ln.get("k") == "client":
+            reg[ln["c"]] = ln.get("reg", ln["col"])
+    for idx, ln, prev, after in _adjacent(case):
+        io = ln.get("obs", {})
+        colname = (ln.get("mut") or {}).get("col") or reg.get(ln["c"])
+        nums = {c["name"]: c["num"] for c in prev["collections"]}
+        mine = nums.get(reg.get(ln["c"]))
+        if (ln.get("mut") or {}).get("col") and nums.get(colname) != mine and io.get("rpc") == 0:
+            return [dict(step=idx, what="foreign-collection-request-served", detail=dict(cmd=strip(ln)))]
+        for coll in ("datatypes", "operations", "snapshots", "clients"):
+            a = sorted((canon(x) for x in prev[coll] if x.get("colNum") != mine))
+            b = sorted((canon(x) for x in after[coll] if x.get("colNum") != mine))
+            if a != b:
+                return [dict(step=idx, what="other-collection-changed:" + coll, detail=dict(cmd=strip(ln), collection=reg.get(ln["c"])))]
+    return []
+
+
+def notify(case):
+    """C18: after a push that stored ≥1 operation exactly one notification is published on
+    collection/key with the pusher's id, the datatype id and the new end of the log; otherwise none."""
+    reg, cuid = {}, {}
+    for ln, _ in case:
+        if ln.get("k") == "client":
+            reg[ln["c"]] = ln.get("reg", ln["col"])
+            cuid[ln["c"]] = ln["cuid"]
+    for idx, ln, prev, after in _adjacent(case):
+        io = ln.get("obs", {})
+        if "notifs" not in io:
+            continue
+        before_n, after_n = {}, {}
+        for o in prev["operations"]:
+            before_n[o["duid"]] = before_n.get(o["duid"], 0) + 1
+        for o in after["operations"]:
+            after_n[o["duid"]] = after_n.get(o["duid"], 0) + 1
+        exp = []
+        for d in after["datatypes"]:
+            if after_n.get(d["duid"], 0) - before_n.get(d["duid"], 0) > 0:
+                col = next((c["name"] for c in after["collections"] if c["num"] == d["colNum"]), "?")
+                exp.append(("%s/%s" % (col, d["key"]), d["duid"]))
+        got = [(n["topic"], n["duid"]) for n in io["notifs"]]
+        dup = ln.get("fault") in ("dup", "dup1")
+        if sorted(set(got)) != sorted(set(exp)) or (not dup and len(got) != len(exp)):
+            return [dict(step=idx, what="notification-mismatch", detail=dict(cmd=strip(ln), expected=exp, got=io["notifs"]))]
+        for n in io["notifs"]:
+            d = next((d for d in after["datatypes"] if d["duid"] == n["duid"]), None)
+            want_cuid = (ln.get("mut") or {}).get("cuid") or cuid.get(ln["c"])
+            if d is None or (not dup and n["sseq"] != d["end"]) or n["cuid"] != want_cuid:
+                return [dict(step=idx, what="notification-content", detail=dict(cmd=strip(ln), got=n, end=d and d["end"]))]
+    return []
+
+
+def contract(case):
+    """C13: create on an existing key / subscribe to a missing key / another type under the key is
+    refused through the client's error handler and changes nothing stored; the transition to SUBSCRIBED
+    is reported exactly once per datatype instance."""
+    subs = {}
+    for idx, (ln, mo) in enumerate(case):
+        io = ln.get("obs", {})
+        for p in io.get("posts", []) or []:
+            for h in p.get("handlers", []):
+                if h.get("h") == "state" and h.get("new") == "SUBSCRIBED":
+                    subs[p["r"]] = subs.get(p["r"], 0) + 1
+                    if subs[p["r"]] > 1:
+                        return [dict(step=idx, what="subscribed-reported-twice", detail=dict(cmd=strip(ln), r=p["r"]))]
+            if p.get("dstate") == "SUBSCRIBED" and not subs.get(p["r"]) and not ln.get("k") == "newdt":
+                return [dict(step=idx, what="subscribed-without-report", detail=dict(cmd=strip(ln), r=p["r"]))]
+    return []
+
+
 def hash_unique(case):
     """C15: no two timestamps of the exhaustive grid share an identifier key."""
     for idx, (ln, mo) in enumerate(case):
@@ -408,5 +632,6 @@ def hash_unique(case):
     return []
 
 
-ORACLES = dict(hash_unique=hash_unique, corr=corr, spec=spec, converge=converge, err_noop=err_noop, no_panic=no_panic,
+ORACLES = dict(hash_unique=hash_unique, loginv=loginv, sconverge=sconverge, refused_noop=refused_noop,
+               isolation=isolation, notify=notify, contract=contract, corr=corr, spec=spec, converge=converge, err_noop=err_noop, no_panic=no_panic,
                seq_gapless=seq_gapless, list_order=list_order, twin=twin, tx_atomic=tx_atomic)
